@@ -80,6 +80,7 @@ type viewCase struct {
 	Expect *viewState `json:"expect"`
 	IDs    []int64    `json:"ids"`
 	Absent int64      `json:"absent,omitempty"`
+	Bind   string     `json:"bind,omitempty"` // weight tokens bound to NaN / +Inf / -Inf (parseBind)
 }
 
 // viewErrs collects disagreements by class; each class becomes one failure signature
@@ -412,7 +413,7 @@ func (env *viewEnv) checkUndirectWeighted(wd graph.WeightedDirected, v *viewStat
 				what := fmt.Sprintf("%s.Weight(%d,%d)", tag, mx, my)
 				switch exp[4] {
 				case 0: // x = y: "the internal node weight is returned", true
-					if w != env.selfV || !ok {
+					if !sameF(w, env.selfV) || !ok {
 						ve.add(view+".Weight:self", "%s = (%v,%v), model: the internal node weight %v, true", what, w, ok, env.selfV)
 					}
 				case 1: // joined: the merged weight, true
@@ -491,8 +492,14 @@ func runViewHistory(c *viewCase, sum *core.Summary) {
 	}
 	l := newLive(k)
 	liveNodes := map[int64]bool{}
+	if b, err := parseBind(c.Bind); err != nil {
+		sum.Fail("harness:bad-bind", err.Error(), c)
+		return
+	} else {
+		l.bind = b
+	}
 	if k.dense > 0 {
-		l.absentV = float64(c.Absent)
+		l.absentV = l.f(c.Absent)
 		for _, m := range c.IDs {
 			l.real(m)
 		}
